@@ -89,6 +89,38 @@ def run(R):
                 ".%s is %s(<the replacement entered now>)" % (name, wrapper),
                 ".%s is not built from the replacement of this activation (`%s`): after re-entering the patcher (decorator called twice, start/stop/start) the "
                 "asynchronous conventions still reach the replacement of the first activation" % (name, "; ".join(q.src(v) for v in vals)))
+    # a replacement made by new_callable reaches the attachments only after _maybe_wrap_new (a bound method takes no attributes:
+    # the assignment would raise after the standard library has installed the replacement, and nothing would restore the original)
+    mp_ = mm.functions.get("_make_patch_async")
+    pre_wrapped = False
+    if mp_ is not None:
+        for c in q.calls(mp_.node):
+            if q.call_name(c) == "_PatchAsync":
+                ncs = [a for a in c.args if isinstance(a, ast.Name) and a.id == "new_callable"]
+                stores_nc = [n for n in q.scope_nodes(mp_.node) if isinstance(n, ast.Assign) and any(isinstance(t, ast.Name) and t.id == "new_callable" for t in n.targets)]
+                pre_wrapped = pre_wrapped or (not ncs) or bool(stores_nc)
+    wraps_ = [n for n, c in kit.call_sites(en, lambda c: q.call_name(c) == "_maybe_wrap_new" and c.args and q.src(c.args[0]) == mock_fn)]
+
+    def no_factory(e):
+        nd = cfg.nodes[e.src]
+        if nd.kind != "test":
+            return True
+        k_, s_, pos_ = q.atom_test(nd.ast)
+        return not (k_ == "isnone" and s_ == "self.new_callable" and e.label == ("T" if pos_ else "F"))
+    src_nodes = [n for n in cfg.nodes if n.kind == "stmt" and n.ast is mv[0][1]]
+    pw = cfg.find_path(src_nodes, [nd_ for nd_, v_ in attach.values()], N, cut_nodes=wraps_, keep_edge=no_factory) if attach else None
+    installed = True
+    if wraps_:
+        wnames = set(t.id for n in wraps_ if isinstance(n.ast, ast.Assign) for t in n.ast.targets if isinstance(t, ast.Name))
+        installed = any(q.call_name(c) == "setattr" and len(c.args) == 3 and q.src(c.args[0]) == "self.target" and q.src(c.args[1]) == "self.attribute"
+                        and q.src(c.args[2]) in wnames for c in q.calls(en.node)) and \
+            any(isinstance(n, ast.Assign) and q.src(n.targets[0]) == mock_fn and q.src(n.value) in wnames for n in q.scope_nodes(en.node))
+    R.check(pre_wrapped or (pw is None and installed), "C19.ATTACH", en.qualname + ":new_callable", R.site(en),
+            "a replacement made by new_callable goes through _maybe_wrap_new (and the wrapper is installed) before attributes are set on it",
+            "a replacement made by new_callable gets .asynq/.asyncio set on it as it is: a bound method rejects attributes, so entering the patch raises "
+            "AttributeError after the replacement has been installed - __exit__ is not called for a failed __enter__, and the original is never put back"
+            if pw is not None else "the wrapper made for a new_callable replacement is not installed in place of it (setattr(self.target, self.attribute, ...))",
+            cfg.fmt_path(pw) if pw else None)
     # wrappers forward and wrap
     for cname, wrap in (("_AsynqWrapper", "ConstFuture"), ("_AsyncioWrapper", None)):
         c = repo.cls("mock_." + cname)
